@@ -90,11 +90,13 @@ def source_files():
     return fs
 
 
-def tree_key(cfg, extra=""):
+def tree_key(cfg, tu=None):
     h = hashlib.sha256()
     h.update(EXTRACTOR_VERSION.encode())
     h.update(cfg.encode())
-    h.update(extra.encode())
+    if tu:
+        h.update(tu.encode())
+        h.update(open(tu, "rb").read())
     for f in source_files() + [DRIVER, PORTABLE_H, repo_path("CPP/CMakeLists.txt")]:
         h.update(f.encode())
         h.update(open(f, "rb").read())
@@ -136,8 +138,8 @@ def _run(cmd, out=None, what=""):
     return time.time() - t
 
 
-def workdir(cfg):
-    key = tree_key(cfg)
+def workdir(cfg, tu=None):
+    key = tree_key(cfg, tu)
     d = os.path.join(WORK, key)
     os.makedirs(d, exist_ok=True)
     os.utime(d, None)
@@ -231,9 +233,21 @@ def _resolve_locs(top):
             stack.append(c)
 
 
-def ast(cfg):
-    """Return the slimmed list of top-level Clipper2Lib declarations for cfg."""
-    d = workdir(cfg)
+def _write_tu(d, tu):
+    src = os.path.join(d, "unity.cpp")
+    with open(src, "w") as f:
+        if tu:
+            f.write('#include "%s"\n' % tu)
+        else:
+            f.write(unity_source())
+    return src
+
+
+def ast(cfg, tu=None):
+    """Return the slimmed list of top-level Clipper2Lib declarations for cfg.
+    tu=None analyses the library (unity TU); otherwise `tu` is a self-contained
+    control translation unit kept under /verif/driver/controls."""
+    d = workdir(cfg, tu)
     pk = os.path.join(d, "ast.pickle")
     if os.path.isfile(pk):
         try:
@@ -241,16 +255,14 @@ def ast(cfg):
                 return pickle.load(f)
         except Exception:
             pass
-    src = os.path.join(d, "unity.cpp")
-    with open(src, "w") as f:
-        f.write(unity_source())
+    src = _write_tu(d, tu)
     raw = os.path.join(d, "ast.json")
     cmd = ["clang++"] + config_flags(cfg) + ["-fsyntax-only", "-Xclang", "-ast-dump=json",
                                               "-Xclang", "-ast-dump-filter=Clipper2Lib::", src]
     _run(cmd, out=raw, what="clang AST dump [%s]" % cfg)
     tops = _slim_stream(raw)
     os.unlink(raw)
-    if len(tops) < 300:
+    if len(tops) < (300 if not tu else 50):
         raise AnalysisBroken("AST dump for %s has only %d top-level declarations" % (cfg, len(tops)))
     with open(pk + ".tmp", "wb") as f:
         pickle.dump(tops, f, protocol=pickle.HIGHEST_PROTOCOL)
@@ -263,15 +275,13 @@ def ast(cfg):
 # IR
 # --------------------------------------------------------------------------
 
-def ir_path(cfg):
+def ir_path(cfg, tu=None):
     """Path of the mem2reg'd textual LLVM IR of the unity TU for cfg."""
-    d = workdir(cfg)
+    d = workdir(cfg, tu)
     out = os.path.join(d, "unity.m2r.ll")
     if os.path.isfile(out) and os.path.getsize(out) > 1000:
         return out
-    src = os.path.join(d, "unity.cpp")
-    with open(src, "w") as f:
-        f.write(unity_source())
+    src = _write_tu(d, tu)
     ll = os.path.join(d, "unity.ll")
     cmd = ["clang++"] + config_flags(cfg) + ["-O0", "-Xclang", "-disable-O0-optnone", "-g", "-S",
                                               "-emit-llvm", src, "-o", ll]
